@@ -21,12 +21,14 @@ func main() {
 	per := flag.Int("per", 24, "programs per package")
 	maxTasks := flag.Int("maxtasks", 8, "max tasks per flow")
 	kind := flag.String("kind", "mixed", "mixed|modifier")
+	plain := flag.Bool("plainnames", false, "do not name user variables like identifiers the generated code introduces")
 	flag.Parse()
 	rng := rand.New(rand.NewSource(*seed))
 	var reg strings.Builder
 	reg.WriteString("//go:build verif && go1.25\n\npackage l2\n\nimport (\n")
 	var regs []string
 	id := 0
+	nprogs := 0
 	type pkgInfo struct {
 		Name      string `json:"name"`
 		AutoInstr bool   `json:"auto_instr"`
@@ -48,23 +50,46 @@ func main() {
 		fmt.Fprintf(&reg, "\t%s \"cffverif/corpus/%s\"\n", pkg, pkg)
 		var auxSrc strings.Builder
 		auxSrc.WriteString(progen.AuxHeader())
+		// programs are grouped 1-3 per file: several directives in one file
+		var pendBodies []string
+		var pendIDs []int
+		pendExt := false
+		flush := func() {
+			if len(pendBodies) == 0 {
+				return
+			}
+			name := "prog"
+			for _, i := range pendIDs {
+				name += fmt.Sprintf("_%d", i)
+			}
+			if err := os.WriteFile(filepath.Join(dir, name+"_x.go"), []byte(progen.FileSource(pkg, pendBodies, pendExt)), 0o644); err != nil {
+				panic(err)
+			}
+			pendBodies, pendIDs, pendExt = nil, nil, false
+		}
+		groupSize := 1 + rng.Intn(3)
 		emit := func(p *progen.Prog) {
 			src, aux := progen.Source(p)
 			auxSrc.WriteString(aux)
-			if err := os.WriteFile(filepath.Join(dir, fmt.Sprintf("prog_%d_x.go", p.ID)), []byte(src), 0o644); err != nil {
-				panic(err)
+			pendBodies = append(pendBodies, src)
+			pendIDs = append(pendIDs, p.ID)
+			pendExt = pendExt || progen.NeedsExt(p, aux)
+			if len(pendBodies) >= groupSize {
+				flush()
+				groupSize = 1 + rng.Intn(3)
 			}
+			nprogs++
 			b, _ := json.Marshal(p)
 			regs = append(regs, fmt.Sprintf("\tregister(%q, %s.%s)\n", string(b), pkg, p.Name))
 		}
 		for n := 0; n < *per; n++ {
-			p := &progen.Prog{ID: id, Pkg: pkg, Name: fmt.Sprintf("Prog%d", id), AutoInstr: opts.AutoInstr, ModifierOK: opts.Modifier}
+			p := &progen.Prog{ID: id, Pkg: pkg, Name: fmt.Sprintf("Prog%d", id), AutoInstr: opts.AutoInstr, ModifierOK: opts.Modifier, PlainNames: *plain}
 			id++
 			if *kind == "modifier" || rng.Intn(10) < 6 {
 				p.Flow = progen.GenFlow(rng, opts)
 				emit(p)
 				if rng.Intn(4) == 0 && n+1 < *per {
-					q := &progen.Prog{ID: id, Pkg: pkg, Name: fmt.Sprintf("Prog%d", id), AutoInstr: opts.AutoInstr, ModifierOK: opts.Modifier}
+					q := &progen.Prog{ID: id, Pkg: pkg, Name: fmt.Sprintf("Prog%d", id), AutoInstr: opts.AutoInstr, ModifierOK: opts.Modifier, PlainNames: *plain}
 					id++
 					n++
 					q.Flow = progen.Relist(rng, p.Flow)
@@ -76,6 +101,7 @@ func main() {
 				emit(p)
 			}
 		}
+		flush()
 		if err := os.MkdirAll(filepath.Join(dir, "ext"), 0o755); err != nil {
 			panic(err)
 		}
@@ -93,11 +119,12 @@ func main() {
 		var sreg strings.Builder
 		sreg.WriteString("//go:build verif && go1.25\n\npackage l2\n\nimport pse \"cffverif/corpus/pse\"\n\nfunc init() {\n")
 		for n := 0; n < 4 && *kind != "modifier"; n++ {
-			p := &progen.Prog{ID: id, Pkg: pkg, Name: fmt.Sprintf("Prog%d", id), Special: "noindex-sliceend"}
+			p := &progen.Prog{ID: id, Pkg: pkg, Name: fmt.Sprintf("Prog%d", id), Special: "noindex-sliceend", PlainNames: *plain}
 			id++
 			p.Par = progen.GenPar(rng, progen.GenOpts{NoIndexEnd: true})
 			src, _ := progen.Source(p)
-			if err := os.WriteFile(filepath.Join(dir, fmt.Sprintf("prog_%d_x.go", p.ID)), []byte(src), 0o644); err != nil {
+			nprogs++
+			if err := os.WriteFile(filepath.Join(dir, fmt.Sprintf("prog_%d_x.go", p.ID)), []byte(progen.FileSource(pkg, []string{src}, false)), 0o644); err != nil {
 				panic(err)
 			}
 			b, _ := json.Marshal(p)
@@ -121,5 +148,6 @@ func main() {
 	}
 	b, _ := json.Marshal(pkgs)
 	_ = os.WriteFile(filepath.Join(*out, "corpus", "packages.json"), b, 0o644)
-	fmt.Printf("progen: %d programs in %d packages\n", id, *npkg)
+	_ = os.WriteFile(filepath.Join(*out, "corpus", "nprogs"), []byte(fmt.Sprint(nprogs)), 0o644)
+	fmt.Printf("progen: %d programs in %d packages\n", nprogs, *npkg)
 }
